@@ -23,9 +23,13 @@ theorem rawScan_eq (names : List (List UInt8)) (w : Nat) (n : Nat) : ∀ (l : Li
       by_cases h34 : (c == 34) = true
       · simp only [h34, if_true]
         conv => rhs; unfold scan
-      by_cases h0 : (c == 0) = true
+      by_cases h0 : c.toNat < 32
       · simp [h34, h0]
-      have htr := Term_tail c r ht (by simpa using h0)
+      have hc0 : (c == 0) = false := by
+        cases h : (c == 0) with
+        | false => rfl
+        | true => rw [beq_iff_eq] at h; subst h; simp at h0
+      have htr := Term_tail c r ht hc0
       simp only [List.length_cons] at hl
       by_cases h92 : (c == 92) = true
       · simp only [h34, h0, h92, if_true, if_false, Bool.false_eq_true]
